@@ -61,6 +61,10 @@ KIND_TAGS = {
     "text": ["str"],
     "selfc": ["Other", "Other+compiled"],
     "rangestrs": ["rangestrs"],
+    "intx": ["int", "none", "float", "str", "other"],
+    "intnb": ["int", "float", "str", "other"],
+    "formats": ["none", "str", "strs:0", "strs:1", "strs:2", "strs:3"],
+    "affixes": ["str", "strs:0", "strs:1", "strs:2", "other", "strs+other"],
     "charlist": ["charlist"],
     "newobj": ["new"],
     "varpre_small": ["", "Other", "str2", "other", "Empty", "Other|Alternation", "Empty|Other", "Other|other", "str2|Empty|Other",
@@ -128,6 +132,11 @@ def make_value(eng, path, name, kind, tag, fi=None):
         if tag == "":
             return ()
         return tuple(make_value(eng, path, f"{name}{i}", "pre", t, fi) for i, t in enumerate(tag.split("|")))
+    if tag.startswith("strs:"):
+        k = int(tag.split(":")[1])
+        return [SStr([Atom(z3.String(f"{name}{i}"), "opq", {"key": f"{name}{i}"})]) for i in range(k)]
+    if tag == "strs+other":
+        return [SStr([Atom(z3.String(f"{name}0"), "opq", {"key": f"{name}0"})]), Other(name + "1")]
     if tag == "rangestrs":
         n = z3.Int(f"{name}_len")
         path.assume(n >= 0)
@@ -588,6 +597,10 @@ def sb_BREFNAME(eng, path, name):
     return strre.lang_pred(eng, strre.plain_regex(BREF_RX))(str_term(name))
 
 
+def sb_LISTV(eng, path, x):
+    return isinstance(x, (list, MapList, TermList))
+
+
 def sb_TP(eng, path, x):
     """spec-level _to_pregex (x must not be BADPRE)"""
     q = "pregex.core.pre.Pregex._to_pregex"
@@ -948,7 +961,43 @@ def ret_split_range(eng, path, env, fi, contract):
     return CharPair(CharV(lo), CharV(hi), mutable=True)
 
 
-RETURNS = {"split_range": ret_split_range, "none": ret_none, "infer": ret_infer, "initpregex": ret_initpregex, "setcompiled": ret_setcompiled, "to_pregex": ret_to_pregex, "pregex": ret_pregex, "expr": ret_expr, "newpregex": ret_newpregex}
+def ret_wrapped_init(eng, path, env, fi, contract):
+    """a class form used as a callee: the new object takes the fields of the method-form result its contract names"""
+    from .vc import eval_spec
+    src = eval_spec(eng, contract["value"], env, path, fi)
+    me = env["self"]
+    if isinstance(src, Obj):
+        path.fields(me).update({k: v for k, v in path.fields(src).items()})
+        path.fields(me)["_Pregex__compiled"] = None
+        me.info = getattr(src, "info", None)
+    else:
+        ret_newpregex(eng, path, {"pattern": src, "escape": False}, fi, contract, obj=me)
+    return None
+
+
+def ret_opaque_other(eng, path, env, fi, contract):
+    """an arbitrary non-empty Pregex of inferred type Other (assumed result of a text-building helper)"""
+    key = (fi.qualname, tuple(value_key(v) for v in env.values()))
+    if key not in path.memo:
+        path.memo[key] = new_pregex(eng, path, fi.qualname.split(".")[-1], "Other")
+    return path.memo[key]
+
+
+def ret_opaque_class(eng, path, env, fi, contract):
+    key = (fi.qualname, tuple(value_key(v) for v in env.values()))
+    if key not in path.memo:
+        path.memo[key] = new_pregex(eng, path, "union", "Class")
+    return path.memo[key]
+
+
+def ret_opaque_init(eng, path, env, fi, contract):
+    me = env["self"]
+    src = new_pregex(eng, path, "init", "Other")
+    path.fields(me).update(path.fields(src))
+    return None
+
+
+RETURNS = {"opaque_class": ret_opaque_class, "opaque_other": ret_opaque_other, "opaque_init": ret_opaque_init, "wrapped_init": ret_wrapped_init, "split_range": ret_split_range, "none": ret_none, "infer": ret_infer, "initpregex": ret_initpregex, "setcompiled": ret_setcompiled, "to_pregex": ret_to_pregex, "pregex": ret_pregex, "expr": ret_expr, "newpregex": ret_newpregex}
 
 
 # ------------------------------------------------------------------------------------------------------
@@ -970,6 +1019,53 @@ def load_spec_module(eng):
     eng.spec_module = m
 
 
+def generic_construct(eng, ci, args, kwargs, fr, path):
+    """constructors of the class / token layer that have no contract of their own: the result is an arbitrary value of
+    the type the class invariant gives them (assumed; bounded stand-ins B1/B2)"""
+    mods = eng.index.modules
+    base_cls = mods["pregex.core.classes"].classes.get("__Class")
+    base_tok = mods["pregex.core.tokens"].classes.get("__Token")
+    if base_cls is not None and ci.is_subclass_of(base_cls):
+        return new_pregex(eng, path, ci.name, "Class", cls=ci)
+    if base_tok is not None and ci.is_subclass_of(base_tok):
+        return new_pregex(eng, path, ci.name, "Token", cls=ci)
+    return None
+
+
+_concrete_cache = {}
+
+
+def concrete_construct(eng, ci, args, kwargs, fr, path):
+    import json
+    from .common import native_fast
+    from .symex import RaiseExc, concrete_json
+    args = concrete_json(list(args), path)
+    kwargs = {k: concrete_json(v, path) for k, v in kwargs.items()}
+    key = json.dumps([ci.module.name, ci.name, args, kwargs], sort_keys=True)
+    if key not in _concrete_cache:
+        _concrete_cache[key] = native_fast("construct", {"module": ci.module.name, "cls": ci.name, "args": args, "kwargs": kwargs})
+    r = _concrete_cache[key]
+    if "exception" in r:
+        raise RaiseExc(r["exception"], Obj(r["exception"], kind="exception"))
+    return new_pregex(eng, path, ci.name, r["type"], cls=ci, text=r["pattern"], repeatable=r["repeatable"])
+
+
+def concrete_call(eng, fi, env, fr, path):
+    import json
+    from .common import native_fast
+    from .symex import RaiseExc, concrete_json
+    args = {k: concrete_json(v, path) for k, v in env.items()}
+    key = json.dumps([fi.qualname, args], sort_keys=True)
+    if key not in _concrete_cache:
+        _concrete_cache[key] = native_fast("call_concrete", {"qualname": fi.qualname, "args": args})
+    r = _concrete_cache[key]
+    if "exception" in r:
+        raise RaiseExc(r["exception"], Obj(r["exception"], kind="exception"))
+    if "pattern" in r:
+        return new_pregex(eng, path, fi.qualname.split(".")[-1], r["type"], text=r["pattern"], repeatable=r["repeatable"])
+    return r["value"]
+
+
 def build_engine(index, contracts):
     table = {}
     for q, c in contracts.items():
@@ -983,7 +1079,12 @@ def build_engine(index, contracts):
         table[q] = c
     eng = Engine(index, table, dict(SPEC_BUILTINS))
     eng.last_detail = None
+    eng.generic_construct = lambda ci, args, kwargs, fr, path: generic_construct(eng, ci, args, kwargs, fr, path)
+    eng.concrete_construct = lambda ci, args, kwargs, fr, path: concrete_construct(eng, ci, args, kwargs, fr, path)
+    eng.concrete_call = lambda fi, env, fr, path: concrete_call(eng, fi, env, fr, path)
     eng.hints = {}
+    eng.kind_gaps = set()
+    eng.kind_tags = KIND_TAGS
     from . import strre
     strre._langs.clear()
     strre.lang_pred(eng, name_lang())       # the documented name language is registered first
